@@ -293,8 +293,8 @@ func (in *Interp) deepEqual(t types.Type, a, b Value, depth int) *Term {
 		return in.deepEqual(ia.T, ia.V, ib.V, depth+1)
 	case *types.Signature:
 		fa, fb := a.(*FuncV), b.(*FuncV)
-		an := fa == nil || (fa.Fn == nil && fa.B == nil)
-		bn := fb == nil || (fb.Fn == nil && fb.B == nil)
+		an := fa == nil || (fa.Fn == nil && fa.B == nil && fa.N == nil)
+		bn := fb == nil || (fb.Fn == nil && fb.B == nil && fb.N == nil)
 		return c.Bool(an && bn)
 	}
 	in.fail("reflect.DeepEqual on %s is not modelled", t)
